@@ -316,6 +316,37 @@ fn op_pair<T: Kind>(req: &Value) -> Value {
            "cmp_ba": b.cmp(&a) as i8, "pcmp_ab": a.partial_cmp(&b).map(|o| o as i8), "disp_a": hx(&da), "disp_b": hx(&db)})
 }
 
+/// JSON round trip through serde_json: deserialise the JSON text `json` (hex), re-serialise the value
+#[cfg(feature = "sd")]
+fn serde_run<T: Kind>(req: &Value) -> Value
+where
+    GenericPurl<T>: for<'de> serde::Deserialize<'de> + serde::Serialize,
+{
+    let js = unhex(&req["json"]);
+    match serde_json::from_str::<GenericPurl<T>>(&js) {
+        Ok(p) => {
+            let back = serde_json::to_string(&p).unwrap();
+            let direct = T::parse(&match serde_json::from_str::<String>(&js) { Ok(s) => s, Err(_) => String::new() });
+            let same = match direct { Some(Ok(q)) => q == p, _ => false };
+            json!({"de": {"ok": observe(&p)}, "ser": hx(&back), "ser_is_display": back == serde_json::to_string(&p.to_string()).unwrap(), "same_as_from_str": same})
+        },
+        Err(e) => {
+            let direct = match serde_json::from_str::<String>(&js) { Ok(s) => T::parse(&s), Err(_) => None };
+            json!({"de": {"err": e.to_string()}, "from_str_ok": matches!(direct, Some(Ok(_))), "is_json_string": serde_json::from_str::<String>(&js).is_ok()})
+        },
+    }
+}
+
+#[cfg(feature = "sd")]
+fn serde_op(req: &Value) -> Value {
+    match req["T"].as_str().unwrap_or("String") {
+        "String" => serde_run::<String>(req),
+        #[cfg(feature = "pt")]
+        "Purl" => serde_run::<purl::PackageType>(req),
+        t => json!({"unsupported": format!("kind {}", t)}),
+    }
+}
+
 fn pair_dispatch(req: &Value) -> Value {
     match req["T"].as_str().unwrap_or("String") {
         "String" => op_pair::<String>(req),
@@ -365,6 +396,8 @@ fn handle(req: &Value) -> Value {
         },
         "pair" => pair_dispatch(req),
         "shape" => shape::run(req),
+        #[cfg(feature = "sd")]
+        "serde" => serde_op(req),
         #[cfg(feature = "pt")]
         "both" => {
             // the same string through the type-agnostic and the typed parser, plus the documented name rules
